@@ -1292,7 +1292,7 @@ impl<'a, const C: usize, const R: usize, T: 'a + Copy + std::fmt::Debug> Layout<
                     for i in -1..(EXTRA_WAITING_LEN as i8) {
                         self.waiting_into_hold(i);
                     }
-                    self.dequeue(overflow);
+                    self.dequeue_overflow(overflow);
                 }
             }
         }
@@ -1609,7 +1609,15 @@ impl<'a, const C: usize, const R: usize, T: 'a + Copy + std::fmt::Debug> Layout<
             for i in -1..(EXTRA_WAITING_LEN as i8) {
                 self.waiting_into_hold(i);
             }
-            self.dequeue(overflow);
+            self.dequeue_overflow(overflow);
+        }
+    }
+    /// Process an event that fell out of the full queue. This happens outside of `tick`, so a
+    /// custom event cannot be returned to the caller; a custom release is kept as a pending
+    /// custom release and reported by a following tick, so that it is not lost.
+    fn dequeue_overflow(&mut self, overflow: Queued) {
+        if let CustomEvent::Release(value) = self.dequeue(overflow) {
+            let _ = self.states.push(State::SeqCustomActive(value));
         }
     }
     /// Resolve coordinate to first non-Trans actions.
